@@ -146,6 +146,8 @@ def boundary_obls(prefix):
         defs = dict(_levels(t[:7]), VP_MODE=mode, VP_CL=cl, VP_NCL1=n1, VP_NCL2=n2, VP_VEC_CAP=8)
         if ukeys:
             defs["VP_UKEYS"] = ukeys
+        if stag == "S3":
+            defs["VP_WIT_SKIP_TRIVIAL"] = 1
         out.append(Obl("%s.%s-C%d-%s%s" % (prefix, BD_MODES[mode], cl, _lname(t[:7]), "-" + stag if stag else ""), "vset/boundary.c",
                        real=VER_REAL, include_real=INC, kit=KIT, defs=defs, unwind=11,
                        unwindset={"memcmp.0": 2, "memcpy.0": 10, "vp_realloc_ptrs.0": 9,
